@@ -250,6 +250,10 @@ struct C18 : Property
 	{
 		// parse -> mutate -> serialise -> deep copy -> pointer -> free; everything on thread-private objects
 		std::string out;
+		// one in three jobs also selects a THREAD-scoped double format for itself: the other threads must not notice
+		bool own_format = salt % 3 == 0;
+		if (own_format)
+			LIB(json_c_set_serialization_double_format("%.3f", JSON_C_OPTION_THREAD));
 		std::string t = text;
 		t.push_back('\0');
 		struct json_tokener *tok = LIB(json_tokener_new());
@@ -284,6 +288,8 @@ struct C18 : Property
 		LIBV(json_object_put(ref));
 		LIBV(json_object_put(cp));
 		LIBV(json_object_put(root));
+		if (own_format)
+			LIB(json_c_set_serialization_double_format(nullptr, JSON_C_OPTION_THREAD));
 		return out;
 	}
 	static void w4_thread(void *argp)
